@@ -57,9 +57,11 @@ def blocks():
     # name: (make(args)->model, argspec {name:(lo,hi)}, paramspec, expected(args, params)->dict of checks)
     B["Waveguide"] = dict(
         make=lambda a: L.Waveguide(L=a["L"], n=a["n"], wl=a["wl"]), args={"L": (0, 50), "n": (1, 4), "wl": (1, 2)}, params={"wl": (1, 2)},
-        expect=lambda a, p: {"entries": {(0, 1): np.exp(2j * np.pi * float(a["n"]) * float(a["L"]) / float(p.get("wl", a["wl"]))),
-                                         (1, 0): np.exp(2j * np.pi * float(a["n"]) * float(a["L"]) / float(p.get("wl", a["wl"]))),
-                                         (0, 0): 0, (1, 1): 0}, "unitary": True})
+        expect=lambda a, p: {"entries": {(0, 1): np.exp(2j * np.pi * complex(a["n"]) * float(a["L"]) / float(p.get("wl", a["wl"]))),
+                                         (1, 0): np.exp(2j * np.pi * complex(a["n"]) * float(a["L"]) / float(p.get("wl", a["wl"]))),
+                                         (0, 0): 0, (1, 1): 0},
+                             # a complex index (documented: "n (float or complex)") describes a lossy guide: passive, not lossless
+                             **({"unitary": True} if complex(a["n"]).imag == 0 else {"passive": True})})
     B["UserWaveguide"] = dict(
         make=lambda a: L.UserWaveguide(L=a["L"], func=uidx, param_dic={"wl": a["wl"], "T": a["T"]}), args={"L": (0, 50), "wl": (1, 2), "T": (-3, 3)},
         params={"wl": (1, 2), "T": (-3, 3)},
@@ -139,6 +141,7 @@ def blocks():
 
 
 INT_ONLY = {"N", "M", "modeset"}
+COMPLEX_OK = {"n"}            # arguments documented as "float or complex"
 INT_OK = {"L", "n", "wl", "ratio", "phase", "d", "angle", "loss", "c", "ref", "PS", "R", "w", "T", "pol"}
 
 
@@ -248,6 +251,10 @@ def draw(rng, spec, all_int=False):
             a[k], tys[k] = rng.randint(int(lo), int(hi)), "int"
             continue
         v = pick(rng, lo, hi, p_int=1.0 if all_int else 0.35)
+        if k in COMPLEX_OK and not all_int and rng.random() < 0.3:
+            z = complex(v, rng.choice([0.0, rng.uniform(0.0, 0.01)]))       # absorption: imaginary part >= 0
+            a[k], tys[k] = (z, "complex") if rng.random() < 0.5 else (np.complex128(z), "np.complex128")
+            continue
         a[k], tys[k] = typed(rng, v, k in INT_OK)
     p = {}
     for k, (lo, hi) in spec["params"].items():
@@ -317,7 +324,13 @@ def run(ctx):
                 return
             a, p, tys = draw(rng, spec, all_int=(i % 5 == 0))
             hist = draw_history(rng, spec, p) if i % 2 else []
-            rep = {"block": name, "args": {k: [float(v) if not isinstance(v, bool) else v, type(v).__name__] for k, v in a.items()},
+            def ser(v):
+                if isinstance(v, bool):
+                    return v
+                if isinstance(v, (complex, np.complexfloating)):
+                    return [float(v.real), float(v.imag)]
+                return float(v)
+            rep = {"block": name, "args": {k: [ser(v), type(v).__name__] for k, v in a.items()},
                    "params": {k: [float(v), type(v).__name__] for k, v in p.items()},
                    "history": [{k: [float(v), type(v).__name__] for k, v in q.items()} for q in hist]}
             ctx.case(rep, tags=[f"block:{name}", f"re-evaluations:{len(hist)}"] + sorted({f"type:{t}" for t in tys.values()}),
@@ -328,6 +341,13 @@ def run(ctx):
 
 
 def _cast(v, t):
+    if t in ("complex", "complex128"):
+        z = complex(v[0], v[1])
+        return z if t == "complex" else np.complex128(z)
+    return _cast0(v, t)
+
+
+def _cast0(v, t):
     return {"int": int, "float": float, "float64": np.float64, "int64": np.int64, "bool": bool}.get(t, float)(v)
 
 
